@@ -46,7 +46,9 @@ below. Reverting each `fix:` commit is an additional built-in mutant set (`tools
 
 State at the end: **%d of the %d are reported with exit 1 by at least one quick check, %d by the check of the property
 they were written against**; not reported: %s. %d of them were *not* reported (or reported only as exit 2) when first
-run; what was strengthened is in the last column. The strengthenings exposed genuine defects of the pinned tree (D18/D19,
+run; what was strengthened is in the last column. The miss rate fell from round to round (rounds 1-2: 15 of 35; round 8:
+5 of 7; round 9: 5 of 12, three of them duplicates of earlier changes found again for another property; round 10, whose
+agents were told to stay out of Knuth's division: 0 of 8). The strengthenings exposed genuine defects of the pinned tree (D18/D19,
 D20, D22, D23) and two engine bugs of mine (section 6).
 
 | change | property | what was changed | what it needs to manifest | confirmed | reported by (violations, quick tier) | history |
